@@ -492,6 +492,22 @@ class Check(BaseCheck):
                     r = self.e.raw('IFERROR(%s,"trapped")' % x)
                     if r != {'result': 'trapped', 'error': None}:
                         rec.violation('C08/host-built-error-object:not-trapped-by-IFERROR', formula=x, code=c, record=r)
+        # values that are NOT error values, however unusual (non-finite numbers, text spelling a code, blanks, empty text): the observers
+        # agree with each other and with what reaches the top - ISERROR = ISERR or ISNA, and IFERROR(x,y) is y exactly when x is an error
+        p.set_function('GIVEV', lambda *a: p.variables.get('nv_x'))
+        for v in (float('inf'), float('-inf'), float('nan'), '#N/A', '#DIV/0!', None, '', 0, False, 1e308, [1, 2]):
+            p.set_variable('nv_x', v)
+            for x in ('nv_x', 'GIVEV()', '(nv_x)', 'IF(TRUE,nv_x,1)') + (('nv_x*10-nv_x*10', '10^308*10.5', '0*(10^308*10.5)') if v == 1e308 else ()):
+                top = self.e.raw(x)
+                trio = [self.e.raw('%s(%s)' % (fn, x)) for fn in ('ISERROR', 'ISERR', 'ISNA')]
+                trap = self.e.raw('IFERROR(%s,"trapped")' % x)
+                rec.case()
+                rec.nt(('not-an-error', repr(v), x))
+                if isinstance(v, list) or not all(t['error'] is None and isinstance(t['result'], bool) for t in trio):
+                    continue
+                is_error_at_top = top['error'] is not None
+                if trio[0]['result'] != (trio[1]['result'] or trio[2]['result']) or trio[0]['result'] != is_error_at_top or (trap == {'result': 'trapped', 'error': None}) != is_error_at_top:
+                    rec.violation('C08/observers-disagree-about-a-value-that-is-no-error', formula=x, value=v, at_the_top=top, iserror=trio[0]['result'], iserr=trio[1]['result'], isna=trio[2]['result'], iferror=trap)
         rec.sample({'formula': 'ISERROR(OWNV(3))=OR(ISERR(OWNV(3)),ISNA(OWNV(3)))'})
 
     def cover(self, rec, t):
